@@ -338,8 +338,17 @@ impl Real {
         let ap: Vec<String> = self.applied.iter().map(|(s, t)| format!("{s}/{t}")).collect();
         let di: Vec<String> = self.discarded.iter().map(|(s, t)| format!("{s}/{t}")).collect();
         let rs: Vec<String> = self.reasons.iter().map(|(t, r)| format!("{t}/{r}")).collect();
+        // what each applying commit delivery was asked to write = the client's operations for that shard
+        let ao: Vec<String> = self
+            .applied
+            .iter()
+            .map(|(s, t)| {
+                let tx = &self.txs[*t];
+                format!("{s}/{t}/{}", tx.pos(*s).map_or_else(|| "-".to_string(), |p| show_ops(&tx.ops[p])))
+            })
+            .collect();
         format!(
-            "C:{}|PA:0|{}|M:{}|H:{}|D:{}|AP:{}|DI:{}|R:{}",
+            "C:{}|PA:0|{}|M:{}|H:{}|D:{}|AP:{}|DI:{}|R:{}|AO:{}",
             c,
             ps.join("|"),
             self.pool.len(),
@@ -347,7 +356,8 @@ impl Real {
             d.join(","),
             ap.join(","),
             di.join(","),
-            rs.join(",")
+            rs.join(","),
+            ao.join(",")
         )
     }
 
